@@ -422,18 +422,28 @@ def frontend_history_workload(ctx):
             except Exception as ex:
                 return ("exc", type(ex).__name__)
 
-        fresh = {}  # what a fresh Parser gives for one step alone (the files never change)
+        fresh = {}  # what a fresh Parser gives for one step alone, per state of the files
+        version = {name: 0 for name in dirs}  # the included files are edited between calls now and then (three contents in rotation)
         for sidx in range(ctx.n(64, 1600)):
             comments = sidx % 2 == 0
             p = Parser(include_comments=comments)
             hist = []
             for k in range(r.randint(4, 12)):
+                if r.random() < 0.15:
+                    name = r.choice(sorted(dirs))
+                    version[name] = (version[name] + 1) % 3
+                    for rel in ("shared.inc", "inc/part.map"):
+                        with open(os.path.join(dirs[name], rel), "w", encoding="utf-8") as f:
+                            f.write(f'NAME "from-{name}-{rel}"\n' if version[name] == 0 else f'NAME "from-{name}-{rel}-edit{version[name]}"\nDEBUG {version[name]}\n')
+                    hist.append(f"edit-included-files:{name}")
+                    res.count("frontend_history_include_edits")
                 kind = r.choice(kinds)
                 hist.append(kind)
                 got = step(p, kind)
-                if (kind, comments) not in fresh:
-                    fresh[(kind, comments)] = step(Parser(include_comments=comments), kind)
-                want = fresh[(kind, comments)]
+                fk = (kind, comments, tuple(sorted(version.items())))
+                if fk not in fresh:
+                    fresh[fk] = step(Parser(include_comments=comments), kind)
+                want = fresh[fk]
                 res.count("frontend_history_steps")
                 res.seen("frontend-step-pairs", f"{hist[-2] if len(hist) > 1 else '-'} -> {kind}")
                 if got != want:
